@@ -6,7 +6,7 @@
    entry section and epilogue that t38x regenerates on every run (Gen/ShrinkEntry.v).
    Only theorems, each closed by a lemma of Proofs/ShrinkEntryProofs.v / Proofs/ShrinkProofs.v. *)
 From Coq Require Import String List Bool.
-From T38 Require Import Model.Shrink Gen.ShrinkEntry Model.ShrinkEntry Proofs.ShrinkProofs Proofs.ShrinkEntryProofs.
+From T38 Require Import Model.Shrink Gen.ShrinkEntry Gen.ShrinkFinal Model.ShrinkEntry Proofs.ShrinkProofs Proofs.ShrinkEntryProofs.
 Import ListNotations.
 Open Scope string_scope.
 
@@ -46,12 +46,17 @@ Proof. exact requests_keep_log. Qed.
 Print Assumptions c08_requests_keep_shrinklog.
 
 (* the deferred epilogue is the model's end_rewrite, and no other statement of the package assigns
-   s.shrinking / s.shrinklog (writeAOF appends) *)
+   s.shrinking / s.shrinklog (writeAOF appends) — except a reset of the log by a function that also
+   raises the abort flag s.shrinkrst, on which the final section gives up before it appends the log
+   (the follower's followReset of proposed_fixes/C09-follow-reset-aborts-shrink.diff; Model/ShrinkEntry.v
+   write_ok) *)
 Theorem c08_shrink_epilogue_transcribed : forall b r, exec_section b epilogue_section r = Some (end_rewrite r).
 Proof. exact epilogue_transcribed. Qed.
 Print Assumptions c08_shrink_epilogue_transcribed.
 
-Theorem c08_shrink_state_writes_accounted : shrink_state_writes = expected_state_writes.
+Theorem c08_shrink_state_writes_accounted :
+  forallb (write_ok shrink_state_writes final_section) shrink_state_writes = true /\
+  forallb (fun w => in_list w shrink_state_writes) expected_state_writes = true.
 Proof. exact state_writes_accounted. Qed.
 Print Assumptions c08_shrink_state_writes_accounted.
 
